@@ -93,3 +93,49 @@ class Accum(object):
         self.log.append(("_private",))
         self.total += 1000
         return "leak"
+
+
+class CustomError(Exception):
+    """an exception class the receiving side does not know (not a builtin, not a Pyro5 error)"""
+
+
+class Unserialisable(object):
+    __slots__ = ()
+
+    def __getstate__(self):
+        raise TypeError("this object refuses to be serialised")
+
+
+@server.expose
+class Raiser(object):
+    """raises exceptions described by a server-side table (the exception is built on the server)"""
+    table = {}
+
+    def __init__(self):
+        self.calls = []
+
+    def _make(self, key):
+        cls, args, attrs = Raiser.table[key]
+        x = cls(*args)
+        for k, v in attrs.items():
+            setattr(x, k, v)
+        return x
+
+    def raise_it(self, key):
+        self.calls.append(("raise_it", key))
+        raise self._make(key)
+
+    @property
+    def prop(self):
+        self.calls.append(("prop", Raiser.current))
+        raise self._make(Raiser.current)
+
+    def stream(self, key, index):
+        self.calls.append(("stream", key))
+        for i in range(index):
+            yield i
+        raise self._make(key)
+
+    def token(self, t):
+        self.calls.append(("token", t))
+        return t
